@@ -33,6 +33,10 @@ Lemma queue_before_threads :
   | Some i, Some j => Nat.ltb i j | _, _ => false end = true.
 Proof. vm_compute. reflexivity. Qed.
 
+(* no lost wake-up: every predicate-enabling operation of a public queue method is followed by a notification *)
+Lemma wake_discipline_ok : wake_discipline "threadsafe_queue" members_threadsafe_queue methods_threadsafe_queue = true.
+Proof. vm_compute. reflexivity. Qed.
+
 (* ---- tie: the LTS of Model/CxxQueue.v is written for exactly these critical sections *)
 Lemma skeleton_as_modelled :
   lookup_ir "push" methods_threadsafe_queue = [Lock "m_mutex"; Write "m_data"; PushBack; NotifyOne "m_cond"; Unlock "m_mutex"] /\
